@@ -25,7 +25,7 @@ if [ "$mode" = verify ] || [ "$mode" = both ]; then
 fi
 if [ "$mode" = detect ] || [ "$mode" = both ]; then
   git -C /repo apply $patch || { echo "DETECT: patch does not apply"; exit 7; }
-  cd /verif; timeout 3000 ./vcheck $prop $tier > /tmp/vm_detect.log 2>&1; rc=$?
+  cd /verif; timeout 3000 ./vcheck $prop $tier "${@:5}" > /tmp/vm_detect.log 2>&1; rc=$?
   git -C /repo checkout -- . ; git -C /repo status --short | head -3
   echo "DETECT: vcheck $prop $tier exit=$rc"; grep -E "^VIOLATION|reproduced natively|INCONCLUSIVE harness|type-check" /tmp/vm_detect.log | cut -c1-300 | head -6
 fi
